@@ -6,7 +6,7 @@ import hvgen
 import hvhist
 
 PROP_MODULES = ["HvsrVerif.Props.C08"]
-BRIDGE_MODULES = []
+BRIDGE_MODULES = ["HvsrVerif.Bridge.PyPeaks"]
 
 
 def plateau_maxima(x):
